@@ -75,8 +75,6 @@ func (ssm *serverSessionMedia) initialize() {
 }
 
 func (ssm *serverSessionMedia) close() {
-	ssm.stop()
-
 	for _, forma := range ssm.formats {
 		forma.close()
 	}
